@@ -8,7 +8,11 @@ the compiled Lean task-system model, Model/Close.lean, and the final public stat
     before and after the pair is connected; either peer) is started as a task whose resumptions are counted, and close() -
     of the same peer, of the other peer, twice, of both - is issued once the call has passed k = 0, 1, 2, … suspension points;
     over bundle policies balanced / max-compat / max-bundle, media audio+video+datachannel in several creation orders, BUNDLE
-    accepted or stripped.  A failing case is shrunk to a minimal (configuration, call, k).
+    accepted or stripped, and over session HISTORIES (close_explore.HISTORIES): objects created after the remote side aborted its
+    SCTP association / closed / lost its sockets, receivers that exist but were never started (follow-up offer not answered, answer
+    sendonly / inactive, failed transport, transceiver stopped by the application).  The final oracle walks EVERY object the
+    application ever obtained (every channel, the track of every transceiver, a consumer pending in recv() on every received
+    track).  A failing case is shrunk to a minimal (configuration, call, k).
   * `shutdown` (harness/close_world.py): close() after n event-loop iterations of negotiation + establishment, after randomised
     delays on an established pair, on one or both sides, twice, after the remote side vanished, after a hostile remote killed the
     RTCP task.
@@ -61,11 +65,14 @@ TRUSTED_EXTRA = [
     "object graph); aioice internals (candidate checks, consent task, sockets) are outside the model and judged by the oracle only",
     "SCTP internals are abstracted to the channel states and the CLOSED transition of RTCSctpTransport.stop (C13 covers them)",
 ]
-RULE_X = ("interleave: case = (bundle policy, media kinds in creation order, BUNDLE accepted?, call = [peer, op, nth], k = suspension "
-          "points the call has passed when close() is issued, closer = same | other | same2 | both); quick: the calls that mutate "
-          "the transport sets (setRemoteDescription / setLocalDescription of both peers) x k = 0..4 on 4 configurations + 40 sampled "
-          "(call, k, closer) over every call of the script; thorough: 30 configurations x those calls x every k x every closer + 600 "
-          "sampled, 30% of them after the pair is connected. ")
+RULE_X = ("interleave: case = (bundle policy, media kinds in creation order, BUNDLE accepted?, history family, call = [peer, op, nth], "
+          "k = suspension points the call has passed when close() is issued, closer = same | other | same2 | both); quick: the calls "
+          "that mutate the transport sets (setRemoteDescription / setLocalDescription of both peers) x k = 0..4 on 4 configurations "
+          "+ 40 sampled (call, k, closer) over every call of the plain script + ~48 systematic session histories (things created "
+          "after the remote aborted the association / closed / lost its sockets; follow-up offer not answered; answerer sendonly / "
+          "inactive / recvonly; wrong DTLS fingerprint; transceivers stopped by the application before / after connecting); "
+          "thorough: 30 configurations x those calls x every k x every closer + 600 sampled + every history family x 3 policies x "
+          "BUNDLE on/off x every closer + 400 random longer histories. ")
 RULE = (RULE_X + "shutdown: case = (media configuration of the two peers, media/data flowing or not, BUNDLE kept or stripped, order of the "
         "negotiation calls, closers [(peer, loop iteration n or settle+delay, single | twice-concurrent | twice-staggered | "
         "twice-seq)], fault none | remote-gone | many-ssrc); quick: 3 instants for every configuration x flow x bundle + 20 settled + 4 faults; "
@@ -172,7 +179,9 @@ def judge_explore(res):
             bad.append(f"{who}: states signaling={f['signaling']} ice={f['ice']} connection={f['conn']}")
         if any(x != "closed" for x in f["channels"]):
             bad.append(f"{who}: data channels {f['channels']}")
-        if not all(f["tracks_ended"]):
+        if f.get("pending_recv"):
+            bad.append(f"{who}: a consumer pending in track.recv() is never released ({','.join(f['pending_recv'])} track stays live)")
+        elif not all(f["tracks_ended"]):
             bad.append(f"{who}: a received track never ends (recv() blocks)")
         if f["events_after_close"]:
             bad.append(f"{who}: events fired: {','.join(f['events_after_close'])}")
@@ -453,6 +462,14 @@ class Explore(Shutdown):
              "closer": "same"},
             {"x": 1, "policy": "balanced", "media": ["audio", "video", "dc"], "bundle": True, "call": [0, "setRemote", 0], "k": 1,
              "closer": "same2"},
+            # round 4, seed sctp-stop-early-when-closed: a channel created after the remote aborted the association
+            {"x": 1, "policy": "balanced", "media": ["dc"], "bundle": True, "hist": "abort", "call": [0, "add:dc", 1], "k": 9,
+             "closer": "same"},
+            # round 4, seed receiver-stop-only-before-connected: a never-started receiver on a connected / failed transport
+            {"x": 1, "policy": "balanced", "media": ["audio"], "bundle": True, "hist": "reoffer", "extra": "video",
+             "call": [1, "setRemote", 1], "k": 9, "closer": "same"},
+            {"x": 1, "policy": "balanced", "media": ["audio"], "bundle": True, "hist": "dir", "dir": "sendonly",
+             "call": [0, "nop", 0], "k": 9, "closer": "both"},
             # transceiver.stop() by the application racing close()
             {"x": 1, "policy": "max-bundle", "media": ["dc", "audio", "video"], "bundle": True, "call": [0, "trxStop", 0], "k": 1,
              "closer": "same"},
@@ -488,6 +505,9 @@ class Explore(Shutdown):
             desc = rng.choice(pool_)
             kmax = EX_KMAX.get(desc[1], 1)
             out.append(dict(cfg, x=1, call=desc, k=rng.randrange(0, kmax + 1), closer=rng.choice(X.CLOSERS)))
+        # (3) session histories: things created after the remote side went away / after the association died, and objects that
+        # exist but were never started when close() comes - small systematic families (always), random longer ones (thorough)
+        out += self.histories(rng, tier)
         # de-duplicate
         seen = set()
         uniq = []
@@ -499,8 +519,73 @@ class Explore(Shutdown):
         self._batch = list(self.corpus()) + uniq
         return uniq
 
+    def histories(self, rng, tier):
+        from harness import close_explore as X
+        quick = tier == "quick"
+        out = []
+
+        def fam(hist, media, closers, ks=(9,), call=None, **kw):
+            for pol in (("balanced",) if quick else X.POLICIES):
+                for bundle in ((True,) if quick else (True, False)):
+                    cfg = dict(policy=pol, media=media, bundle=bundle, hist=hist, **kw)
+                    desc = call or X.all_calls(cfg)[-1]
+                    for k in ks:
+                        for cl in closers:
+                            out.append(dict(cfg, x=1, call=desc, k=k, closer=cl))
+        every = list(X.CLOSERS)
+        avd = ["audio", "dc"] if quick else ["audio", "video", "dc"]       # (video costs seconds per case: thorough only)
+        av = ["audio", "dc"] if quick else ["audio", "video"]
+        # the association is aborted by the remote (its sctp.stop()), the local connection stays up and creates things
+        fam("abort", ["dc"], ["same", "both"] if quick else every)
+        fam("abort", ["audio", "dc"], ["same"], ks=(0, 9), after=["dc", "audio", "offer"])
+        for after in (["audio"], ["offer"], ["dc", "dc"]):
+            fam("abort", ["audio", "dc"], ["same"] if quick else every, after=after)
+        # the remote closes; the application re-creates its channel from the `close` handler, then the connection closes
+        fam("abortclose", ["dc"], ["other"], ks=range(0, 6))
+        fam("abortclose", ["audio", "dc"], ["other"] if quick else ["other", "both"], ks=(1, 3) if quick else range(0, 8))
+        # a follow-up offer adding a section is applied and never answered: receivers that were never started
+        for extra in ("video", "audio", "dc"):
+            fam("reoffer", ["audio"], ["same", "both"] if quick else every, ks=(0, 9) if quick else (0, 1, 2, 9), extra=extra)
+        fam("reoffer", avd, ["same"] if quick else every, extra="audio")
+        # the answerer restricts a direction: a receiver with a track that is never started on a transport that connects
+        for d in ("sendonly", "inactive", "recvonly"):
+            fam("dir", ["audio"], ["both"] if quick else every, dir=d)
+        fam("dir", avd, ["same", "other"] if quick else every, dir="sendonly")
+        # wrong fingerprint: the transport fails with remote tracks present
+        fam("badfp", ["audio"], ["both", "same"] if quick else every)
+        fam("badfp", ["audio", "dc"], ["both"] if quick else every)
+        # the remote's sockets died; the local application goes on creating things
+        for after in (["dc"], ["audio"], ["offer"], ["dc", "audio", "offer"]):
+            fam("gone", ["audio", "dc"], ["same"] if quick else every, after=after)
+        # transceivers stopped by the application
+        fam("stopped", av, ["both", "same"] if quick else every)
+        fam("stopearly", ["audio"], ["same", "both"] if quick else every)
+        fam("stopearly", avd, ["same"] if quick else every)
+        if not quick:
+            for _ in range(400):
+                hist = rng.choice(X.HISTORIES[1:])
+                media = rng.choice([["audio"], ["audio", "dc"], ["audio", "video"], ["audio", "video", "dc"], ["dc", "audio"]])
+                if hist in ("abort", "abortclose") and "dc" not in media:
+                    media = media + ["dc"]
+                cfg = dict(policy=rng.choice(X.POLICIES), media=media, bundle=rng.random() < 0.7, hist=hist)
+                if hist == "dir":
+                    cfg["dir"] = rng.choice(["sendonly", "inactive", "recvonly"])
+                if hist == "reoffer":
+                    cfg["extra"] = rng.choice(["audio", "video", "dc"])
+                if hist in ("abort", "gone"):
+                    cfg["after"] = [rng.choice(["dc", "audio", "video", "offer"]) for _ in range(rng.randrange(1, 4))]
+                calls = X.all_calls(cfg)
+                desc = calls[-1] if rng.random() < 0.6 else rng.choice(calls[max(0, len(calls) - 5):])
+                out.append(dict(cfg, x=1, call=desc, k=rng.choice([0, 1, 2, 3, 9]), closer=rng.choice(every)))
+        return out
+
     def label(self, case, impl_out):
         r = self._get(case)
+        if case.get("hist"):
+            if r.get("void"):
+                return "void:" + case["hist"]
+            extra = case.get("dir") or case.get("extra") or "+".join(case.get("after", []))
+            return f"{case['hist']}:{extra}:{case['call'][1]}@{case['call'][0]}:{case['closer']}"
         if r.get("void"):
             return "void:" + r["void"].split(" raised")[0][:30]
         fired = r.get("fired") or [0, True]
@@ -514,8 +599,12 @@ class Explore(Shutdown):
 
     def shrink(self, case):
         # minimal (configuration, call, k): fewer suspension points first, then one closer, then a smaller configuration
-        for k in range(0, case["k"]):
+        ks = range(0, min(case["k"], 8)) if not case.get("hist") else sorted({0, case["k"] // 2} - {case["k"]})
+        for k in ks:
             yield dict(case, k=k)
+        if len(case.get("after", [])) > 1:
+            for i in range(len(case["after"])):
+                yield dict(case, after=case["after"][:i] + case["after"][i + 1:])
         if case["closer"] != "same":
             yield dict(case, closer="same")
         media = case["media"]
